@@ -219,6 +219,12 @@ def run_case(ctx):
             if np.linalg.norm(ref) < 1e-9 * np.linalg.norm(d) * max(np.linalg.norm(a.todense()), 1e-300):
                 continue
             ctx.cls("op:apply-charged")
+            if rng.random() < 0.5:
+                # the operator in another gauge (centre not on the last site, one or two sweeps, complex dtype ...)
+                tr = []
+                ctx.lib(states.gauge_history, rng, o, 2, tr, allow_coeff=False, what="gauge-history-mpo")
+                ctx.cls("op:operator-gauge-changed")
+                w.operator(o, d, "Mpo+gauge")
             res = ctx.lib(o.apply, target, what="apply(charged)")
             if w.state(res, qa + charge, "apply(charged)"):
                 cp = res.copy()
